@@ -311,6 +311,16 @@ func (as *asciiSet) index(s string) int {
 
 var spaceAsciiSet = makeASCIISet(" \t\r\n\f")
 
+// isBlank reports whether s contains only CSS white space (U+00A0, U+3000 ... are ordinary characters)
+func isBlank(s string) bool {
+	for i := 0; i < len(s); i++ {
+		if !spaceAsciiSet.contains(s[i]) {
+			return false
+		}
+	}
+	return true
+}
+
 // returns true if s is a whitespace-separated list that includes val.
 func matchInclude(val, s string, ignoreCase bool) bool {
 	if val == "" { // an empty operand represents nothing
@@ -351,7 +361,7 @@ func attributeDashMatch(key, val string, n *html.Node, ignoreCase bool) bool {
 func attributePrefixMatch(key, val string, n *html.Node, ignoreCase bool) bool {
 	return matchAttribute(n, key,
 		func(s string) bool {
-			if val == "" || strings.TrimSpace(s) == "" {
+			if val == "" || isBlank(s) {
 				return false
 			}
 			if ignoreCase {
@@ -366,7 +376,7 @@ func attributePrefixMatch(key, val string, n *html.Node, ignoreCase bool) bool {
 func attributeSuffixMatch(key, val string, n *html.Node, ignoreCase bool) bool {
 	return matchAttribute(n, key,
 		func(s string) bool {
-			if val == "" || strings.TrimSpace(s) == "" {
+			if val == "" || isBlank(s) {
 				return false
 			}
 			if ignoreCase {
@@ -381,7 +391,7 @@ func attributeSuffixMatch(key, val string, n *html.Node, ignoreCase bool) bool {
 func attributeSubstringMatch(key, val string, n *html.Node, ignoreCase bool) bool {
 	return matchAttribute(n, key,
 		func(s string) bool {
-			if val == "" || strings.TrimSpace(s) == "" {
+			if val == "" || isBlank(s) {
 				return false
 			}
 			if ignoreCase {
